@@ -6,6 +6,7 @@ re-evaluated after loading (C12 evaluator); for yml text an expectation built by
 """
 from __future__ import annotations
 
+import json
 import math
 import re
 import os
@@ -478,6 +479,29 @@ def check_yml(rng, rec, scratch):
     rec.count("yml_specs_compared")
     for mech, detail in compare(want, got):
         rec.violation(f"yml:{mech}", ctx, detail)
+    # the same specification as an IN-MEMORY dict / list, loaded twice from the same object: loading must not consume it
+    import copy
+
+    from glotaran.builtin.io.yml.utils import load_dict
+
+    try:
+        obj = load_dict(text, False)
+        obj = json.loads(json.dumps(obj))  # plain dict / list / float objects
+        keep = copy.deepcopy(obj)
+        loads = []
+        for _ in range(2):
+            loads.append(Parameters.from_list(obj) if isinstance(obj, list) else Parameters.from_dict(obj))
+        rec.count("in_memory_specs_loaded_twice")
+        if obj != keep:
+            # the library completes short items in place (a bare [value] gets its number as label): not covered by the
+            # statement as long as every later load of the object still gives the same parameters (judged below)
+            rec.count("in_memory_specs_completed_in_place")
+        for n, got2 in enumerate(loads):
+            for mech, detail in compare(want, got2):
+                rec.violation(f"in-memory-spec:load-{n + 1}:{mech}", ctx, detail)
+                break
+    except Exception as e:  # noqa
+        rec.violation(f"in-memory-spec:raises:{type(e).__name__}", ctx, f"{type(e).__name__}: {str(e)[:200]}")
     for b in expr_consistent(got):
         rec.violation("yml:expression-not-evaluated", ctx, b)
     nopt = len({tuple(sorted((k, repr(v)) for k, v in e.items() if k not in ("label", "value"))) for e in expected})
